@@ -65,6 +65,31 @@ CLAIMED = {
    text="A blocking lock request that conflicts with a lock the same thread holds is reported (it would hang) instead of hanging, ParentElementLocked returned single-threaded is a violation, panics are caught, lock leaks are detected; stack use is probed on models up to 5000 package levels deep in a child process.",
    note="With the monitor installed the real parking_lot locks are still taken after the logical grant, so behaviour other than blocking is unchanged.",
    ref="DESIGN.md section 3 C12"),
+ 'C06': dict(
+   technique="property-based testing of single rename / move / move-at operations on generated reference graphs; oracle computed from the pre-state by own path resolution (same target object afterwards; all other references keep their text)",
+   text="Reference graphs contain references to the operated element, to nested elements, to name-prefix siblings, dangling references and dangling references equal to the future path; same-model and cross-model moves, moves into parents where the name exists (suffixing).",
+   note="Dangling references at or below the old path are a stated don't-care; operations that fail are C11's business.",
+   ref="DESIGN.md section 3 C06"),
+ 'C07': dict(
+   technique="specification sweep (element type x version) with brute-force position probes against an own grammar matcher, plus proptest edit histories with a round-trip (serialize, lenient load) and structure / value-space oracle",
+   text="For every sampled (type, version) the reported insertion range, list_valid_sub_elements() and the outcome of create(_named)_sub_element(_at) at every position are compared with the exact set of order-preserving positions; histories check after every successful call that children satisfy the grammar, element types are the prescribed ones, attributes and values are in their value spaces and that the written file reloads without complaint other than RequiredAttributeMissing.",
+   note="The grammar is reconstructed from find_sub_element index vectors and container modes (public API) and matched by own code; adjacent text items of mixed content are compared coalesced (XML cannot tell them apart).",
+   ref="DESIGN.md section 3 C07"),
+ 'C13': dict(
+   technique="property-based testing: generated worlds + one deep copy (same/other parent, other model, other version) or duplicate(); oracles: structural equality up to the computed name suffix, own version filter, object disjointness, index invariants, independence under edits, copy+remove = identity, per-file byte equality for duplicate",
+   text="Copies are compared with the source (or with the harness's own version filter of the source), must share no element object with it, must be findable through the path and reference indices, and edits inside either side must not show in the other; duplicates must serialize every file byte-identically and evolve independently (full snapshots incl. per-file text).",
+   note="Copies whose top-level type differs from the type the destination prescribes are excluded (open finding KF-C07-2) and counted.",
+   ref="DESIGN.md section 3 C13"),
+ 'C14': dict(
+   technique="metamorphic property-based testing: models built twice (second time with every reorderable sibling list permuted), then sorted; content-preservation, idempotence and permutation-invariance oracles",
+   text="Names mix letters and digits (a2/a10/a1b/a02), INDEX and DEFINITION-REF keyed ECUC values, equal keys, mixed kinds in bags, ordered containers, lists of up to 60 siblings (std sort's merge path); which containers are ordered is read from the specification.",
+   note="Siblings that differ only in comments are not generated (the statement lets them keep their relative order).",
+   ref="DESIGN.md section 3 C14"),
+ 'C17': dict(
+   technique="differential property-based testing: check_version_compatibility / set_version vs strict loading of the harness's own rendering of the same content labelled with the target version, over specification-derived documents targeted at version-sensitive types x 21 targets",
+   text="errs.is_empty(), the target bit of the returned mask and the success of set_version are each compared with the result of strictly loading the relabelled content; successful set_version must keep the content and produce a strictly valid file, a failed one must change nothing.",
+   note="Single-file models; the relabelled text is produced by the harness renderer, not by set_version.",
+   ref="DESIGN.md section 3 C17"),
 }
 NA_REASON = "check not built yet (construction in progress, see DESIGN.md section 6)"
 
